@@ -294,13 +294,31 @@ NAMES_PLAIN = ['Ann', 'Bob', 'Cy', 'Dee', 'Eve', 'Flo', 'Gus', 'Hal']
 # names that differ only in case or in the white space inside, names that look like file syntax
 NAMES_CLASH = ['Ann Lee', 'ann lee', 'ANN LEE', 'Ann  Lee', 'Ann\tLee', 'AnnLee', 'end', 'End', '3X', 'X', '0', '-1', '1 2 0',
                'ballots=blt', 'candidate=x y', 'title', 'Ünal Ö.', 'ünal ö.', 'Ωmega', 'ß', 'ǅ']
-TITLES_RICH = ['Council 2020', 'T', ' padded ', '', 'Élection 2024 — Gemeinderat', '選挙', 'seats=3', 'end', '0', '"']
+# runs of white space inside a name: several spaces, tabs, no-break / em / ideographic spaces, a vertical tab (all of them white space
+# to str.split and str.strip) — a reader that splits and re-joins a value collapses them (seeded change C19i)
+NAMES_WS = ['Ann   Lee', 'Ann \t Lee', 'Bo\t\tRay', 'Ann\u00a0Lee', 'Ann \u00a0Lee', 'Jo\u00a0 \u00a0Ann  Li', 'A\u2003B C', 'x\u3000y',
+            'Cy\x0bVee', 'Dee  D.  Dee']
+NAMES_CLASH += NAMES_WS
+TITLES_RICH = ['Council 2020', 'T', ' padded ', '', 'Ward\u00a03   East', 'A\t\tB', 'Élection 2024 — Gemeinderat', '選挙', 'seats=3', 'end', '0', '"']
 NAMES_RICH = ['J. Smith', "O'Neil, Pat", 'Jean-Luc P.', 'A B', 'A. B.', 'Ab', 'al', 'Émile Ÿ', 'Dr. X (ind.)', 'x=y', 'A;B',
               '漢字 名', 'a "quoted" one', '1', '0', 'John  Doe', 'M.C. Hammer', 'van der Berg', 'Ann', 'Bob B. Bob', 'Q']
 # double quotes and hash signs in every order (BLT only: the STV header form cannot carry '#')
 NAMES_QUOTE_HASH = ['Ann "#1" Lee', 'Bob "the #2" Ray', '#1 "Al"', 'C# "sharp"', 'No. #5', '"', '#', '"#', '#"', '"#"', '#"#',
                     'x" # y', 'a # b " c # d " e', '""', '##', 'tail"', '"head', 'tail#', ' "#" ']
 TITLES_QUOTE_HASH = ['Board "East" seat #3', '#3 "East"', 'with # hash', '"q"', 'a "b" # c "d" # e', '"#', '#"', 'Ward #3']
+
+
+def ws_features(text):
+    """white space inside a text beyond single blanks: runs of two or more, tabs, white space outside ASCII"""
+    out = set()
+    inner = text.strip()
+    if re.search(r'\s\s', inner):
+        out.add('inner_ws_run')
+    if '\t' in inner:
+        out.add('inner_tab')
+    if any(c.isspace() and not c.isascii() for c in inner):
+        out.add('inner_non_ascii_space')
+    return out
 
 
 def quote_hash_order(text):
@@ -566,6 +584,60 @@ def stv_tokenise(text):
     if any(v == 'UNSUPPORTED' for v in votes):
         return None
     return hdr, votes
+
+
+def stv_cls(text):
+    """how `_load_ordered_votes` classifies the items of the ballot lines of a text: [item, int(item)] for item.isdecimal(),
+    [item, 'dash'] for '-'; everything else is left out (= bad)"""
+    out, seen = [], set()
+    lines = text.split('\n')
+    k = len(lines)
+    for i, l in enumerate(lines):
+        h = stv_hline(l)
+        if h in ('ballotsBlt', 'ballotsBad', 'invalid', 'candBad') or (isinstance(h, dict) and 'ballots' in h):
+            k = i + 1
+            break
+    for l in lines[k:]:
+        for it in l.strip().split():
+            if it in seen:
+                continue
+            seen.add(it)
+            if it.isdecimal():
+                out.append([it, int(it)])
+            elif it == '-':
+                out.append([it, 'dash'])
+    return out
+
+
+def ordered_text(doc, order, nicks=None, dup_order=False, title=None):
+    """an STV file in the ordered ballot format, written by the harness (votelib has no writer for it): candidate lines in document
+    order, `order=` with the nicknames in the order `order` (a permutation of the candidate positions; with dup_order the first one
+    is repeated at the end, which changes nothing), one column per nickname of the order line holding the rank or '-'.
+    Returns (text, expected candidates / ballots)."""
+    n = len(doc['cands'])
+    nicks = nicks or [f'n{i}' for i in range(n)]
+    out = ['method=BC', 'quota=droop']
+    if title is not None:
+        out.append(f'title={title}')
+    for (name, wd, _), nick in zip(doc['cands'], nicks):
+        out.append(f"{'withdrawn' if wd else 'candidate'}={nick} {name}")
+    onicks = [nicks[i] for i in order] + ([nicks[order[0]]] if dup_order and order else [])
+    out.append('order=' + ' '.join(onicks))
+    out.append(f"ballots={len(doc['ballots'])}")
+    for idx, w in doc['ballots']:
+        cols = ['-'] * len(order)
+        for rank, c in enumerate(idx):
+            cols[order.index(c)] = str(rank + 1)
+        x = weight_py(w)
+        line = ' '.join(cols)
+        if x != 1 or not cols:
+            sx = format(x, 'f') if isinstance(x, Decimal) else str(x)
+            line = f'{sx}X {line}'.rstrip()
+        out.append(line)
+    out.append('end')
+    exp = {'cands': [[nm, bool(wd)] for nm, wd, _ in doc['cands']],
+           'ballots': [[list(idx), fstr(weight_py(w))] for idx, w in doc['ballots']]}
+    return '\n'.join(out) + '\n', exp
 
 
 def stv_blt_rest(text):
